@@ -6,9 +6,9 @@ Open Scope Z_scope.
 (* every visit (path, node, reason) of any walk — any selector, any fuel, graphs whose blocks have unique map
    keys and are not bare links — resolves: get root path = the node visited, or, for a subset match, the node
    of which the visited one is the slice *)
-Theorem C14_walk_paths : forall g root f s,
+Theorem C14_walk_paths : forall q g root f s,
   good_graph g = true -> keys_ok root = true ->
-  Forall (resolves g root) (fst (walk_adv g f root s)).
+  Forall (resolves g root) (fst (walk_adv q g f root s)).
 Proof. exact walk_paths_resolve. Qed.
 Print Assumptions C14_walk_paths.
 
